@@ -88,6 +88,10 @@ func (f *Progv) Call(s *slip.Scope, args slip.List, depth int) (result slip.Obje
 	d2 := depth + 1
 	for i := 2; i < len(args); i++ {
 		result = slip.EvalArg(ns, args, i, d2)
+		switch result.(type) {
+		case *slip.ReturnResult, *GoTo:
+			return // pass a return-from, return or go on to its target
+		}
 	}
 	return
 }
